@@ -197,7 +197,7 @@ class ExprMixin:
         if name in EXC_BUILTINS:
             return VFunc('excclass', name=name)
         if name in ('len', 'range', 'min', 'max', 'abs', 'int', 'float', 'isinstance', 'type', 'list', 'dict', 'tuple',
-                    'enumerate', 'hasattr', 'getattr', 'str', 'super', 'sum', 'all', 'any', 'bool', 'open',
+                    'enumerate', 'hasattr', 'getattr', 'globals', 'str', 'super', 'sum', 'all', 'any', 'bool', 'open',
                     'object', 'sorted', 'set', 'frozenset', 'id', 'hash', 'iter', 'next', 'zip', 'print', 'callable'):
             return VFunc('builtin', name=name)
         raise Unsupported(f'name {name}')
@@ -409,6 +409,9 @@ class ExprMixin:
                 return self.truth(self.call_function(fi, [self.class_ref(cont), item], {}))
         if isinstance(cont, VTuple):
             return z3.Or([self.values_equal(item, x) for x in cont.items] or [z3.BoolVal(False)])
+        if isinstance(cont, VView) and cont.kind == 'globals' and isinstance(item, VStr):
+            from .engine import _module_global_pred
+            return _module_global_pred(self, cont.ref, item.term)
         if isinstance(cont, VRange) and isinstance(item, (VInt, VBool)):
             i = self.arith_term(item)
             lo, hi = (x if z3.is_expr(x) else self.arith_term(x) for x in (cont.lo, cont.hi))
